@@ -140,16 +140,35 @@ def rule_a(ctx, ix):
                        msg, flt, txt, 'a shown subset whose dataset has no layer in this viewer is never removed/updated'
                        if not want_data else 'new subsets of shown datasets are not added'), where=v.where)
     f = v.resolve_func('remove_data')
+    from .. import cond
+    from ..util import elementwise
     lp = [n for n in ast.walk(f.node) if isinstance(n, ast.For)]
-    ok = len(lp) == 1 and unparse(lp[0].iter) in ('self.state.layers[::-1]', 'list(self.state.layers)', 'self.state.layers[:]')
-    rem = [c for c in calls_in(f.node) if call_name(c) == 'remove' and unparse(c.func.value) == 'self.state.layers']
-    tests = [unparse(n.test) for n in ast.walk(f.node) if isinstance(n, ast.If)]
-    own = any(t.replace(' ', '') == 'layer_state.layerisdata' for t in tests)
-    sub = any(t.replace(' ', '') == 'layer_state.layer.dataisdata' for t in tests)
+    snap = False
+    removed_when = None
+    expected = None
+    if len(lp) == 1:
+        ew = elementwise(lp[0].iter)
+        live = unparse(lp[0].iter) == '%s.state.layers' % f.self_name
+        snap = ew is not None and ew.source == '%s.state.layers' % f.self_name and not live and not ew.filtered
+        t, d = unparse(lp[0].target), f.params[1]
+        for c in calls_in(lp[0]):
+            if call_name(c) == 'remove' and unparse(c.func.value) == '%s.state.layers' % f.self_name and c.args and unparse(c.args[0]) == t:
+                from ..util import branch_locals
+                with branch_locals():
+                    pc = cond.expr_condition(f.node, c)
+                removed_when = pc if removed_when is None else cond.Or(removed_when, pc)
+        base = cond.T('isinstance(%s.layer,BaseData)' % t)
+        own = cond.formula(ast.parse('%s.layer is %s' % (t, d), mode='eval').body)
+        sub = cond.formula(ast.parse('%s.layer.data is %s' % (t, d), mode='eval').body)
+        expected = cond.Or(cond.And(base, own), cond.And(cond.Not(base), sub))
+    try:
+        same = removed_when is not None and cond.equivalent(removed_when, expected)
+    except ValueError:
+        same = False
     ctx.ob(R, f.construct, 'remove_data removes the layer of the dataset and the layers of its subsets, iterating a snapshot',
-           ok and len(rem) >= 2 and own and sub,
-           detail='Viewer.remove_data: snapshot iteration=%s, removes=%d, dataset layer test=%s, subset layer test=%s' % (ok, len(rem), own, sub),
-           where=f.where)
+           snap and same,
+           detail='Viewer.remove_data: snapshot iteration=%s; layers are removed when `%s` (expected: the layer is the dataset, or the '
+                  'layer is a subset of the dataset)' % (snap, removed_when), where=f.where)
     f = v.resolve_func('remove_subset')
     ok = any(call_name(c) in ('pop', 'remove') and '_layer_artist_container' in unparse(c.func) and unparse(c.args[0]) == f.params[1]
              for c in calls_in(f.node))
@@ -340,36 +359,54 @@ def rule_f(ctx, ix):
         raise AnalysisError('ComponentIDComboHelper.refresh vanished')
     s = f.self_name
     pm = parent_map(f.node)
-    # main components: (kind == K and self.<flag of K>) or ...
-    loops = [n for n in walk_no_nested(f.node) if isinstance(n, ast.For) and unparse(n.iter).endswith('.main_components')]
-    if len(loops) != 1:
+    # main components: offered exactly when (kind == K and self.<flag of K>) for one of the three kinds - whether the pass over
+    # the main components is a loop with a conditional append or a comprehension with a filter
+    from .. import cond
+    from ..util import iterations
+    passes = [(it, tg, owner, kind) for it, tg, owner, kind in iterations(f.node) if unparse(it).endswith('.main_components')]
+    if len(passes) != 1:
         raise AnalysisError('ComponentIDComboHelper.refresh: loop over the main components not recognised')
-    lp = loops[0]
-    tests = [n for n in lp.body if isinstance(n, ast.If) and any(call_name(c) == 'append' for c in calls_in(n))]
-    bare = [n for n in lp.body if not isinstance(n, ast.If) and any(call_name(c) in ('append', 'extend') for c in calls_in(n))]
-    want = {('numerical', 'numeric'), ('datetime', 'datetime'), ('categorical', 'categorical')}
-    got, parsed = set(), bool(tests) and not bare
-    for t in tests:
-        alts = t.test.values if isinstance(t.test, ast.BoolOp) and isinstance(t.test.op, ast.Or) else [t.test]
-        for a in alts:
-            atoms = _conj_atoms(a)
-            kinds = [x for x in atoms if 'get_kind(' in x and "==" in x]
-            flags = [x[len(s) + 1:] for x in atoms if x.startswith(s + '.') and x[len(s) + 1:].isidentifier()]
-            if len(kinds) != 1:
-                parsed = False
-                continue
-            k = kinds[0].split('==')[1].strip('\'"')
-            for fl in flags or [None]:
-                got.add((k, fl))
-    bad = sorted(p for p in got if p not in want)
-    missing = sorted(p for p in want if p not in got)
+    it, tg, owner, kind = passes[0]
+    lp = owner
+    F = None
+    bare = False
+    if kind == 'for':
+        offers = [st for st in ast.walk(owner) if isinstance(st, ast.Expr) and isinstance(st.value, ast.Call)
+                  and call_name(st.value) in ('append', 'extend') and any(unparse(a) == unparse(tg) for a in st.value.args)]
+        for st in offers:
+            pc = cond.path_condition(f.node, st)
+            if pc is None or pc == ('const', True):
+                bare = True
+            else:
+                F = pc if F is None else cond.Or(F, pc)
+    else:
+        ifs = [i for g in owner.generators for i in g.ifs]
+        if not ifs:
+            bare = True
+        else:
+            F = cond.And(*[cond.formula(i, f.node) for i in ifs])
+    want = {'numerical': 'numeric', 'datetime': 'datetime', 'categorical': 'categorical'}
+    expected, found = None, {}
+    if F is not None:
+        for a in sorted(cond.atoms(F)):
+            if a.startswith('eq|') and 'get_kind(' in a:
+                sides = a.split('|')[1:]
+                const = [x for x in sides if x[:1] in '\'"']
+                if len(const) == 1:
+                    found[const[0].strip('\'"')] = a
+        if set(found) == set(want):
+            expected = cond.Or(*[cond.And(cond.T(found[k]), cond.T('%s.%s' % (s, want[k]))) for k in sorted(want)])
+    try:
+        good = expected is not None and not bare and cond.equivalent(F, expected)
+    except ValueError:
+        good = False
     ctx.idiom(R, f.construct + ' main', 'a main attribute is offered only when the flag of its own kind is set',
-              accepted=parsed and got == want,
-              absent=bool(bare) or (parsed and bool(bad or missing)) or not tests,
-              detail_absent='ComponentIDComboHelper.refresh offers main attributes under %s (expected each kind under its own flag: %s): '
+              accepted=good,
+              absent=bare or F is None or (not good and set(found) <= set(want) and all('get_kind(' in a or a.startswith(s + '.') for a in cond.atoms(F))),
+              detail_absent='ComponentIDComboHelper.refresh offers main attributes under `%s` (expected each kind under its own flag: %s): '
                             'the picker shows attributes that do not match its kind filters, or hides ones that do'
-                            % (sorted(got) if tests and not bare else 'no kind test', sorted(want)),
-              shape=unparse(tests[0].test) if tests else '', where=where(f, lp))
+                            % (F if not bare else 'no kind test', sorted(want.items())),
+              shape=str(F), where=where(f, lp))
     # the other categories
     rows = [('derived_components', {'numeric', 'derived'}, 'derived attributes are numerical: they are offered only when both numeric and derived are set'),
             ('pixel_component_ids', {'pixel_coord'}, 'pixel attributes are offered only when pixel_coord is set'),
